@@ -172,7 +172,7 @@ fn list_family(name: &'static str, thorough_only: bool, f: ListFam, t: bool) -> 
 fn families(a: &Args) -> Vec<Family> {
     let t = a.thorough();
     vec![
-        simple_family("digraphs", false, SimpleFam::new(0..=(if t { 4 } else { 3 }), true, true), t),
+        simple_family("digraphs", false, SimpleFam::new(0..=4, true, true), t),
         simple_family("digraphs4-loopfree", false, SimpleFam::new(4..=4, true, false), t),
         list_family("digraph-lists", false, ListFam::new(3, if t { 4 } else { 3 }, true), t),
         simple_family("ungraphs", false, SimpleFam::new(0..=4, false, true), t),
